@@ -40,11 +40,22 @@ def gen(rng, tier, index):
         if scn['size'] <= (6000 if tier == 'quick' else 45000) and not (scn['kind'] == '128' and tier == 'quick' and scn['size'] > 20000):
             break
     scn['source'] = 'bin2tap'
+    if index % 12 == 0 and scn['kind'] != '128':
+        # a pilotless decoy block somewhere on the tape (first, between blocks, or last)
+        scn['tape_fmt'] = 'tap'
+        scn['decoy'] = {'pos': rng.choice((0, 0, 1, 2, 3, 4, 9)), 'one_pulse': rng.choice((0, 0, 2168, 667, rng.randrange(300, 4000))),
+                        'len': rng.randrange(1, 300), 'addr': rng.randrange(16384, 65536), 'pause_ms': rng.choice((0, 100, 1000))}
     size = scn['size']
     scn.pop('cfg')
     scn['base'] = {'polarity': rng.choice((0, 0, 1)), 'first-edge': rng.choice((0, 0, 1, 1000, prng.log_uniform(rng, 1, 1000000))),
                    'finish-tape': rng.choice((0, 0, 1))}
     scn['variants'] = gen_variants(rng, size, tier)
+    if scn.get('decoy'):
+        # the decoy plays while BASIC is busy (pause=0) or waits for the next LOAD (pause=1): what the loader hears of
+        # it differs, which is the documented purpose of the option; only the delivery is compared for pause=0
+        for v in scn['variants']:
+            if not v['pause']:
+                v['group'] = 'weak'
     return scn
 
 def gen_variants(rng, size, tier, names=('rom',)):
@@ -160,6 +171,9 @@ def _run(scn, res, wd):
     try:
         if scn['source'] == 'bin2tap':
             tape, exp = p12.build_tape(scn, wd)
+            if scn.get('decoy'):
+                tape = gen_tzx.wrap_with_decoy(tape, scn['decoy'], wd)
+                bump(res, 'fault:PILOTLESS_DECOY_BLOCK(pos %d)' % scn['decoy']['pos'])
             start = scn['start']
             machine = scn['machine']
             ranges = [(exp['begin'], exp['end'])]
